@@ -215,7 +215,11 @@ StrsB == <<S(<<>>), S(<<97>>), S(<<97, 98, 99>>), S(<<97, 44, 98>>), S(<<44, 97,
            S(<<65533>>), S(<<133, 160, 120, 12288>>), S(<<8203, 97, 8203>>), S(<<5760, 32, 97, 8232>>),
            S(<<6158, 97>>), S(<<72, 101, 108, 108, 111, 44, 32, 87, 111, 114, 108, 100, 33>>),
            S(<<65, 66, 67, 32, 120, 121, 122>>), S(<<34, 92>>), S(<<10>>), S(<<1114111>>), S(<<55295, 57344>>),
-           S(<<13, 10>>), S(<<64, 91, 96, 123>>)>>
+           S(<<13, 10>>), S(<<64, 91, 96, 123>>),
+           \* case mappings that depend on the position or change the length: word-final capital sigma, sigma inside a
+           \* word, a lone sigma, sharp s, dotted capital I, a titlecase digraph
+           S(<<927, 916, 933, 931, 931, 917, 933, 931>>), S(<<913, 931, 32, 914, 931, 913>>), S(<<931>>), S(<<97, 931>>),
+           S(<<223, 97>>), S(<<304, 73>>), S(<<453>>), S(<<64257>>)>>
 ParseIntB == <<S(<<48>>), S(<<45, 48>>), S(<<43, 48>>), S(<<53>>), S(<<43, 53>>), S(<<45, 53>>), S(<<45, 45, 53>>),
                S(<<43, 45, 53>>), S(<<45>>), S(<<43>>), S(<<>>), S(<<32, 53>>), S(<<53, 32>>), S(<<49, 95, 48, 48, 48>>),
                S(<<48, 120, 49, 48>>), S(<<49, 50, 97>>), S(<<65297, 65298>>), S(<<1635>>),
